@@ -86,6 +86,13 @@ class C06(Prop):
                 if tier == "thorough" or v % 4 == 0 or v in (0x0A, 0x0D, 0x00, 0xFF, 0x20):
                     items.append(["edge", ci, "prepend", v])
                     items.append(["edge", ci, "replace_last_and_cut", v])
+        # wrong-sized strings that carry the magic AND their own length in bytes 2-3 (as every real Switcher frame does),
+        # and the library's own request frames: none of them is a broadcast
+        for n in range(4, 401):
+            if n not in (165, 168, 159) and (tier == "thorough" or n % 2 == 0 or n < 60):
+                items.append(["selflen", n])
+        for k in range(14):
+            items.append(["request", k])
         codes = neighbours()
         r = env.rng("C06", seed, "codes")
         if tier == "thorough":
@@ -130,6 +137,23 @@ class C06(Prop):
             if rb.gate(data):
                 return None, None
             return data, ("nongenuine-capture", len(data), delta)
+        if kind == "selflen":
+            n = item[1]
+            cap = r.choice(self.caps)
+            body = bytearray((cap * 3)[:n]) if r.random() < 0.5 else bytearray(r.randbytes(n))
+            body[0:2] = b"\xfe\xf0"
+            body[2:4] = n.to_bytes(2, "little")
+            return bytes(body), ("nongenuine-self-consistent-length", n)
+        if kind == "request":
+            from ..props.c04 import FRAME_KINDS
+            from ..selftest import DEV, KEY, SESSION, TS
+            from ..ref import frames as _fr
+
+            k2, a2 = FRAME_KINDS[item[1]]
+            data = _fr.build(k2, SESSION, TS, DEV, KEY, a2)
+            if rb.gate(data):
+                return None, None
+            return data, ("nongenuine-own-request-frame", len(data), k2)
         if kind == "edge":
             _, ci, how, v = item
             cap = self.caps[ci]
